@@ -112,6 +112,7 @@ type CallPlan struct {
 	InterceptorErr      bool // the plan's error is returned by the outermost handler interceptor, user code never runs
 	InterceptorErrAfter bool // client-stream: the outermost handler interceptor returns the plan\'s error after the handler has sent its response
 	CloseTwice          bool // server-stream client calls Close twice
+	clientLimit         bool // C14: the call ends on the client's own read limit
 	panicAfterCtx       bool
 	ReturnSendErr       bool     // the handler returns the error of a failed Send (as handlers do)
 	RecoverErr          *ErrPlan // what the WithRecover function returns
